@@ -29,7 +29,13 @@ Section Run.
   Variable hdrdec : bytes -> option (list bytes * N).
 
   Definition v_roans (a : roans) : val :=
-    match a with AOut o => v_out o | AKeys k => v_keys_out k end.
+    match a with
+    | AOut o => v_out o
+    | AKeys k => v_keys_out k
+    | AReadOnly => VL [VT "err"; VT "readonly"; VN 1]     (* errReadOnly, backing bytes unchanged *)
+    | AOffs [] => VL [VT "err"; VT "notfound"]
+    | AOffs offs => VL [VT "offs"; VL (map VN offs)]
+    end.
 
   Definition v_roop (q : val) : option roop :=
     let key := vB (vnth 1 q) in
@@ -39,6 +45,11 @@ Section Run.
     else if tag_is q "keys" then Some RKeys
     else if tag_is q "roots" then Some RRoots
     else if tag_is q "close" then Some RClose
+    else if tag_is q "put" then Some (RPut key (vB (vnth 2 q)))
+    else if tag_is q "putmany" then Some (RPutMany (vblocks (vnth 1 q)))
+    else if tag_is q "delete" then Some (RDelete key)
+    else if tag_is q "hashonread" then Some (RHashOnRead (vbool (vnth 1 q)))
+    else if tag_is q "idxgetall" then Some (RIndexGetAll key)
     else None.
 
   (* blockstore: a session with the closed flag; storage: stateless *)
@@ -192,13 +203,52 @@ Definition check_closed (o : qopts) (roots : list bytes) (mmap : bool) (q ans : 
     else None
   end.
 
+(* the operations whose answer does not depend on open / closed: refused writes, HashOnRead, Index().GetAll *)
+Fixpoint sec_offsets (pos : N) (bs : list block) : list (N * block) :=
+  match bs with
+  | [] => []
+  | b :: t => (pos, b) :: sec_offsets (pos + section_size (fst b) (snd b)) t
+  end.
+
+Definition check_fixed (roots : list bytes) (bs : list block) (q ans : val) : option (option string) :=
+  if tag_is q "put" || tag_is q "putmany" || tag_is q "delete" then
+    Some (match ans with
+          | VL [VT t; VT e; VN u] =>
+              if negb (String.eqb t "err" && String.eqb e "readonly") then Some "write-method-not-refused"
+              else if N.eqb u 1 then None else Some "refused-write-changed-the-backing"
+          | _ => Some "write-method-not-refused"
+          end)
+  else if tag_is q "hashonread" then
+    Some (match ans with VL [VT t] => if String.eqb t "nil" then None else Some "hashonread-answered" | _ => Some "hashonread-answered" end)
+  else if tag_is q "idxgetall" then
+    Some (match cid_parse (vB (vnth 1 q)) with
+          | None => None
+          | Some kp =>
+            let offs := match ans with VL [VT t; VL l] => if String.eqb t "offs" then map vN l else [] | _ => [] end in
+            let secs := sec_offsets (ld_size (blen (enc_header (Some roots) 1))) bs in
+            let digest_of (b : block) := match cid_parse (fst b) with Some p => Some (c_mhcode p, c_digest p) | None => None end in
+            let sound := forallb (fun off => existsb (fun ob => N.eqb (fst ob) off &&
+                           match digest_of (snd ob) with Some (_, d) => bytes_eqb d (c_digest kp) | None => false end) secs) offs in
+            let complete := is_identity kp ||
+                            forallb (fun ob => match digest_of (snd ob) with
+                                               | Some (c, d) => negb (N.eqb c (c_mhcode kp) && bytes_eqb d (c_digest kp)) ||
+                                                                existsb (N.eqb (fst ob)) offs
+                                               | None => true end) secs in
+            if negb sound then Some "index-offset-is-no-section-of-that-digest"
+            else if negb complete then Some "index-misses-a-carrying-section" else None
+          end)
+  else None.
+
 Fixpoint all_fails_c (closed mmap : bool) (front : N) (o : qopts) (idxids : bool) (roots : list bytes) (bs : list block)
          (qs anss : list val) : list (string * string) :=
   match qs, anss with
   | q :: qs', a :: anss' =>
       if tag_is q "close" then all_fails_c true (closed && mmap || vbool (vnth 1 q)) front o idxids roots bs qs' anss'
       else
-      match (if closed then check_closed o roots mmap q a else check_answer front o roots bs q a) with
+      match (match check_fixed roots bs q a with
+             | Some r => r
+             | None => if closed then check_closed o roots mmap q a else check_answer front o roots bs q a
+             end) with
       | Some c => (c, fail_class o idxids c q a) :: all_fails_c closed mmap front o idxids roots bs qs' anss'
       | None => all_fails_c closed mmap front o idxids roots bs qs' anss'
       end
@@ -206,15 +256,6 @@ Fixpoint all_fails_c (closed mmap : bool) (front : N) (o : qopts) (idxids : bool
   | _, _ => [("answer-count-mismatch", "")]
   end.
 Definition all_fails := all_fails_c false false.
-
-(* executable form of ReadOnlyRefine.consistent: sections with equal multihash carry equal bytes *)
-Definition consistentb (bs : list block) : bool :=
-  forallb (fun b1 => forallb (fun b2 =>
-    match cid_parse (fst b1), cid_parse (fst b2) with
-    | Some p1, Some p2 =>
-        negb ((c_mhcode p1 =? c_mhcode p2)%N && bytes_eqb (c_digest p1) (c_digest p2)) || bytes_eqb (snd b1) (snd b2)
-    | _, _ => true
-    end) bs) bs.
 
 Fixpoint val_eqb (a b : val) : bool :=
   match a, b with
